@@ -39,6 +39,9 @@ Proof. split; reflexivity. Qed.
 (* the names readBlocklists skips / loadInitial deletes are the ones CreateTemp makes *)
 Lemma gen_temp_prefix : hd [] local_temp_prefix_strs ++ [42] = hd [] persist_temp_strs.
 Proof. reflexivity. Qed.
+(* the refresh pass is the downloads-only one, and downloads are the *.tmp files *)
+Lemma gen_refresh : refresh_downloads_only_strs = [[116;114;117;101]] /\ download_ext_strs = [[46;116;109;112]].
+Proof. split; reflexivity. Qed.
 Lemma gen_comment : comment_str = [35] /\ comment_char = 35 /\ parse_comment_prefix_strs = [[35]; [35]].
 Proof. repeat split; reflexivity. Qed.
 Lemma gen_reply_consts : ttl_a = 3600 /\ ttl_aaaa = 3600.
